@@ -795,6 +795,32 @@ class Engine:
             work.extend(cfg.succ.get(x, []))
         return None
 
+    FOLDERS = ('std::iter::Iterator::fold', 'std::iter::Iterator::try_fold')
+
+    def applied_env(self, body, bb, cl):
+        """{closure parameter index: term} for a closure local handed to an iterator adapter / consumer: the element of the iterator for
+        `map` / `for_each` / .. (parameter 2), the accumulator's initial value and the element for `fold` / `try_fold` (parameters 2, 3)"""
+        it = self.applied_to(body, bb, cl)
+        if it is not None:
+            return {2: mk_elem(self, it)}
+        cfg = self.bx(body).cfg
+        seen, work = set(), [bb]
+        while work:
+            x = work.pop()
+            if x in seen or len(seen) > 12:
+                continue
+            seen.add(x)
+            t = body.block[x]['term']
+            if t['k'] == 'call':
+                args = t['args']
+                for i, a in enumerate(args):
+                    if a['k'] in ('move', 'copy') and a['place']['l'] == cl and not a['place']['p']:
+                        if callee_decl(t) in self.FOLDERS and i == 2 and len(args) == 3:
+                            return {2: self.operand(body, x, TERM_IDX, args[1]), 3: mk_elem(self, self.operand(body, x, TERM_IDX, args[0]))}
+                        return {}
+            work.extend(cfg.succ.get(x, []))
+        return {}
+
     def event_term(self, body, e, depth=0):
         if e['kind'] == 'closure':
             cb = e['cbody']
@@ -803,9 +829,8 @@ class Engine:
             for j, o in enumerate(e['captures']):
                 env[('upvar', cb.key, j)] = self.operand(body, e['bb'], e['idx'], o, depth + 1)
             if e.get('closure_local') is not None:
-                it = self.applied_to(body, e['bb'], e['closure_local'])
-                if it is not None:
-                    env[('param', cb.key, 2)] = mk_elem(self, it)
+                for pi, pt in self.applied_env(body, e['bb'], e['closure_local']).items():
+                    env[('param', cb.key, pi)] = pt
             return self.subst(inner, env, ((body.key, e['bb']),))
         site = ((body.key, e['bb']),)
         if e['kind'] == 'store':
@@ -1442,6 +1467,8 @@ def project_field(t, name, i):
             return t[2][i][1]
     if tag in ('tuple', 'array') and 0 <= i < len(t.args):
         return t.args[i]
+    if tag == 'closure' and 0 <= i < len(t[2]):
+        return t[2][i]                  # a captured variable read back from the closure value (a closure body spliced at its call)
     if tag == 'phi':
         return mk_phi([project_field(x, name, i) for x in t.args])
     if tag == 'mut':
